@@ -35,33 +35,6 @@ def hooked_overlay(c, vlib):
     return True
 
 
-def safe_assumptions(c):
-    """Replacement for Check._collect_assumptions: its regex backtracks for minutes on Print Assumptions output whose axiom
-    types span several lines (the real-number axioms under c08_range_valid / c13_range_*). Same result, line by line."""
-    def collect(out):
-        closed = len(re.findall(r"Closed under the global context", out))
-        axioms, inblk = set(), False
-        for line in out.splitlines():
-            if line.strip() == "Axioms:":
-                inblk = True
-                continue
-            if inblk:
-                m = re.match(r"^([A-Za-z_][\w.']*)\s*(:|$)", line)
-                if m:
-                    axioms.add(m.group(1))
-                elif not line.startswith(" "):
-                    inblk = False
-                if line.startswith("Closed under"):
-                    inblk = False
-                    axioms.discard("Closed")
-        if closed:
-            c.trust("Print Assumptions: %d theorem(s) 'Closed under the global context'" % closed)
-        for a in sorted(axioms):
-            c.trust("Print Assumptions axiom: " + a)
-        return axioms
-    c._collect_assumptions = collect
-
-
 def run_harness(c, vlib, binary, extra=()):
     n = 300 if c.tier == "quick" else 3000
     args = [binary, "-out", c.build, "-seed", str(c.seed), "-n", str(n)] + list(extra)
@@ -96,7 +69,6 @@ def run(c):
     c.assume("sticky: termination of the `for {}` reassignment loop is not proved; the model runs it on fuel and validity holds for every fuel")
     if not c.coq_make():
         return
-    safe_assumptions(c)
     c.coq_properties()
     if not hooked_overlay(c, vlib):
         return
